@@ -386,3 +386,5 @@ M("C07", "binary-node-resolver-not-stored", NODES, "        self.symbol_base = p
 M("C12", "cli-arguments-never-parsed", "a816/cli.py", "    args = parser.parse_args()\n", "", "C12.RU")
 M("C03", "block-not-cleared-after-flush", PROG, "                current_block_addr = self.resolver.pc\n                current_block = b\"\"\n", "                current_block_addr = self.resolver.pc\n", "C03.R2")
 M("C07", "db-returns-inside-loop", CG, "        code.append(ByteNode(ExpressionNode(expr, resolver, file_info)))\n    return code", "        code.append(ByteNode(ExpressionNode(expr, resolver, file_info)))\n        return code", "C07.R3")
+M("C06", "redefinition-keeps-old-value", SYM, "                logger.warning(f\"Symbol already defined ({symbol})\")\n            self.symbols[symbol] = value\n", "                logger.warning(f\"Symbol already defined ({symbol})\")\n            else:\n                self.symbols[symbol] = value\n", "C06.R6")
+M("C18", "joker-lower-case-only", "script/__init__.py", 'joker_regex = re.compile(r"^\\[0x(?P<byte>[0-9a-fA-F]+)]")', 'joker_regex = re.compile(r"^\\[0x(?P<byte>[0-9a-f]+)]")', "C18.R3")
